@@ -481,6 +481,8 @@ def cross_reference(nodes, warn=null_warn):
             node_.definition = None
             return
         found = types_index.get(node_.type_name)
+        if isinstance(found, Constant):
+            found = None
         if not found:
             warn("type '%s' not found" % node_.type_name)
         node_.definition = found
